@@ -108,6 +108,9 @@ def enc_content(c):
     """File content for JSON: str stays str, bytes become {"b64":...}, {"symlink": target} passes through."""
     if isinstance(c, dict):
         return c
+    if isinstance(c, bytes) and len(c) > (1 << 20):
+        import zlib
+        return {"zb64": base64.b64encode(zlib.compress(c, 6)).decode()}
     if isinstance(c, bytes):
         try:
             s = c.decode("utf-8")
@@ -120,6 +123,9 @@ def enc_content(c):
 
 
 def dec_content(c) -> bytes:
+    if isinstance(c, dict) and "zb64" in c:
+        import zlib
+        return zlib.decompress(base64.b64decode(c["zb64"]))
     if isinstance(c, dict) and "b64" in c:
         return base64.b64decode(c["b64"])
     if isinstance(c, str):
